@@ -1,2 +1,440 @@
--- line-protocol model driver for C04 (stub)
-def main : IO Unit := IO.println "stub C04"
+/- Line-protocol model driver for C04 (tables / structs / arrays / buffers).  Same protocol as harness/C04/hist.c:
+   one op per line; output = result, then the raw state of every register.  `key <idx> <hash> <rank>` lines (copied
+   from the harness output) define the key pool. -/
+import Driver.Util
+import JanetModel.Table.Model
+import JanetModel.Seq.Model
+open Driver JanetModel.Table JanetModel.Seq JanetModel.Gen.Table
+
+namespace C04
+
+def NT := 4
+def NS := 2
+def NA := 3
+def NB := 3
+
+structure St where
+  hashes : Array Nat := #[]
+  ranks : Array Nat := #[]
+  theap : Array Table := #[]
+  sheap : Array Struct := #[]
+  T : Array Nat := #[]
+  S : Array Nat := #[]
+  A : Array Arr := #[]
+  B : Array Buf := #[]
+  full : Bool := false
+
+def St.reset (s : St) : St :=
+  { s with theap := Array.replicate NT (Table.init 0), T := Array.range NT,
+           sheap := Array.replicate NS (structEnd (fun _ => 0) (fun _ => 0) (structBegin 0)), S := Array.range NS,
+           A := Array.replicate NA (Arr.new 0), B := Array.replicate NB (Buf.new 0) }
+
+def St.h (s : St) : Nat → Nat := fun k => s.hashes.getD k 0
+def St.rank (s : St) : Nat → Nat := fun k => s.ranks.getD k 0
+def St.tab (s : St) (r : Nat) : Table := s.theap.getD (s.T.getD r 0) default
+def St.str (s : St) (r : Nat) : Struct := s.sheap.getD (s.S.getD r 0) default
+def St.setTab (s : St) (r : Nat) (t : Table) : St := { s with theap := s.theap.setIfInBounds (s.T.getD r 0) t }
+def St.newTab (s : St) (r : Nat) (t : Table) : St := { s with theap := s.theap.push t, T := s.T.setIfInBounds r s.theap.size }
+def St.newStr (s : St) (r : Nat) (t : Struct) : St := { s with sheap := s.sheap.push t, S := s.S.setIfInBounds r s.sheap.size }
+def St.theapF (s : St) : Nat → Option Table := fun i => s.theap[i]?
+def St.sheapF (s : St) : Nat → Option Struct := fun i => s.sheap[i]?
+
+/-! printing -/
+def hexNat (n : Nat) : String :=
+  if n = 0 then "0" else
+  let rec go (fuel n : Nat) (acc : List Char) : List Char :=
+    match fuel with
+    | 0 => acc
+    | fuel + 1 => if n = 0 then acc else go fuel (n / 16) (hexDigit (n % 16) :: acc)
+  String.ofList (go 20 n [])
+
+def dg (d : UInt64) (c : Nat) : UInt64 := d * 1000003 + UInt64.ofNat c + 1
+
+def prVal (v : Nat) : String := if v = 0 then "nil" else if v = 1 then "false" else if v = 2 then "true" else toString v
+def prOV : Option Nat → String
+  | some v => prVal v
+  | none => "uninit"
+def prKey : Option Nat → String
+  | some k => s!"K{k}"
+  | none => "nil"
+
+def kvDigest (data : Array Slot) : UInt64 :=
+  data.foldl (fun d kv => dg d ((match kv.key with | none => 0 | some k => k + 1) * 1048576 + kv.val)) 0
+
+def dumpKV (data : Array Slot) : String :=
+  "{" ++ String.join (data.toList.map (fun kv => s!"{prKey kv.key}={prVal kv.val} ")) ++ "}"
+
+def protoStr (regs : Array Nat) (p : Option Nat) : String :=
+  match p with
+  | none => "-1"
+  | some id => match regs.toList.findIdx? (· == id) with
+    | some j => toString j
+    | none => "-2"
+
+def St.state (s : St) : String := Id.run do
+  let mut o := ""
+  for i in [0:NT] do
+    let t := s.tab i
+    o := o ++ s!" T{i}:{t.data.size},{t.count},{t.deleted},{hexNat (kvDigest t.data).toNat},{protoStr s.T t.proto}"
+    if t.bad then o := o ++ "!NULL-DEREF"
+    if s.full then o := o ++ dumpKV t.data
+  for i in [0:NS] do
+    let t := s.str i
+    o := o ++ s!" S{i}:{t.data.size},{t.length},{hexNat (kvDigest t.data).toNat},{protoStr s.S t.proto}"
+    if s.full then o := o ++ dumpKV t.data
+  for i in [0:NA] do
+    let a := s.A.getD i default
+    let d := a.items.foldl (fun d v => dg d (match v with | some v => v | none => 0xFFFFE)) 0
+    o := o ++ s!" A{i}:{a.count},{a.capacity},{hexNat d.toNat}"
+    if s.full then o := o ++ "{" ++ String.join ((a.items.take 4000).map (fun v => prOV v ++ " ")) ++ "}"
+  for i in [0:NB] do
+    let b := s.B.getD i default
+    let d := b.items.foldl (fun d v => dg d (match v with | some v => v | none => 256)) 0
+    o := o ++ s!" B{i}:{b.count},{b.capacity},{hexNat d.toNat}"
+    if s.full then o := o ++ "{" ++ String.join ((b.items.take 4000).map (fun v => match v with | some v => hexByte v | none => "??")) ++ "}"
+  return o
+
+/-! token decoding -/
+def regOf (c : Char) (n : Nat) (t : String) : Option Nat :=
+  match t.toList with
+  | c' :: rest => if c' == c then (String.ofList rest).toNat?.bind (fun i => if i < n then some i else none) else none
+  | [] => none
+
+def valOf (t : String) : Option Nat :=
+  match t.toList with
+  | 'v' :: rest => (String.ofList rest).toNat?
+  | _ => if t == "nil" then some 0 else if t == "false" then some 1 else if t == "true" then some 2 else none
+
+def kargOf (t : String) : Option KArg :=
+  if t == "nil" then some .nil else if t == "nan" then some .nan else (regOf 'K' 1000000 t).map .key
+
+/-- a token as an integer-ish argument -/
+def argOf (t : String) : Arg :=
+  if t == "nil" || t == "v0" then .nil
+  else match t.toInt? with
+    | some n => if -2147483648 ≤ n ∧ n ≤ 2147483647 then .int n else .bad
+    | none => .bad
+
+def tupleOf (t : String) : Option (List (Option Nat)) :=
+  match t.toList with
+  | '[' :: rest =>
+    let inner := String.ofList (rest.takeWhile (· != ']'))
+    if inner == "" then some [] else some ((inner.splitOn ",").map (fun x => some (x.toNat?.getD 0)))
+  | _ => none
+
+def optArg (toks : List String) (i : Nat) : Option Arg := (toks[i]?).map argOf
+
+def bytesOfTok (t : String) : Option (List Nat) :=
+  match t.toList with
+  | 's' :: rest => some (rest.map (·.toNat))
+  | ':' :: rest => some (rest.map (·.toNat))
+  | _ => none
+
+def outStr {α} (pr : Option α → String) : Outcome α → String
+  | .ok => "ok"
+  | .val v => pr v
+  | .num n => toString n
+  | .err => "err"
+  | .oom => "OOM"
+  | .ub => "UB"
+
+def prByte : Option Nat → String
+  | some b => toString b
+  | none => "uninit"
+
+/-- `keys` / iteration by repeated `next` -/
+def iterKeys (s : St) (data : Array Slot) : List Nat := iterNext s.h data (data.size + 1) none
+
+def listStr (xs : List String) : String := "[" ++ " ".intercalate xs ++ "]"
+
+def stepOp (s : St) (toks : List String) : St × String :=
+  let h := s.h
+  match toks with
+  | ["hist", _] => (s.reset, "ok")
+  | op :: x :: rest =>
+    let t0 := regOf 'T' NT x
+    let s0 := regOf 'S' NS x
+    let a0 := regOf 'A' NA x
+    let b0 := regOf 'B' NB x
+    -- ------------------------------------------------ tables
+    match t0, s0, a0, b0 with
+    | some r, _, _, _ =>
+      let t := s.tab r
+      match op, rest with
+      | "tnew", [c] => match argOf c with
+        | .int n => if n < 0 then (s, "err") else (s.newTab r (Table.init n.toNat), "ok")
+        | _ => (s, "err")
+      | "put", [k, v] => match kargOf k, valOf v with
+        | some k, some v => (s.setTab r (t.put h k v), "ok")
+        | _, _ => (s, "bad-op")
+      | "get", [k] | "in", [k] => match kargOf k with
+        | some (.key k) => (s, prVal (tableGet h s.theapF (s.T.getD r 0) k))
+        | some _ => (s, "nil")      -- nil / NaN never equal a stored key
+        | none => (s, "bad-op")
+      | "rawget", [k] => match kargOf k with
+        | some (.key k) => (s, prVal (t.rawget h k))
+        | some _ => (s, "nil")
+        | none => (s, "bad-op")
+      | "rem", [k] => match kargOf k with
+        | some (.key k) => let r' := t.remove h k; (s.setTab r r'.1, prVal r'.2)
+        | some _ => (s, "nil")
+        | none => (s, "bad-op")
+      | "clear", [] => (s.setTab r t.clear, "ok")
+      | "clone", [d] => match regOf 'T' NT d with
+        | some d => (s.newTab d t.clone, "ok")
+        | none => (s, "bad-op")
+      | "setproto", [p] =>
+        if p == "nil" then (s.setTab r { t with proto := none }, "ok")
+        else match regOf 'T' NT p with
+          | some p => (s.setTab r { t with proto := some (s.T.getD p 0) }, "ok")
+          | none => (s, "err")
+      | "next", [k] => match kargOf k with
+        | some .nil => (s, prKey (dictNext h t.data none))
+        | some (.key k) => (s, prKey (dictNext h t.data (some k)))
+        | _ => (s, "bad-op")
+      | "len", [] => (s, toString t.count)
+      | "keys", [] => (s, listStr ((iterKeys s t.data).map (fun k => s!"K{k}")))
+      | "pairs", [] => (s, listStr ((iterKeys s t.data).map (fun k => s!"K{k}={prVal (tableGet h s.theapF (s.T.getD r 0) k)}")))
+      | "values", [] => (s, listStr ((iterKeys s t.data).map (fun k => prVal (tableGet h s.theapF (s.T.getD r 0) k))))
+      | "merge", srcs | "cmerge", srcs =>
+        let s' := srcs.foldl (fun (acc : Option St) src => acc.bind (fun s =>
+          let kvs : Option (List Slot) := match regOf 'T' NT src, regOf 'S' NS src with
+            | some j, _ => some (s.tab j).data.toList
+            | _, some j => some (s.str j).data.toList
+            | _, _ => none
+          kvs.map (fun kvs => s.setTab r ((s.tab r).mergekv h kvs)))) (some s)
+        match s' with
+        | some s' => (s', "ok")
+        | none => (s, "bad-op")
+      | "tostruct", [d] => match regOf 'S' NS d with
+        | some d => (s.newStr d (t.toStruct h s.rank), "ok")
+        | none => (s, "bad-op")
+      | "flatten", [d] => match regOf 'T' NT d with
+        | some d =>
+          let rec chain (fuel : Nat) (id : Option Nat) : List Table :=
+            match fuel, id with
+            | 0, _ => []
+            | _, none => []
+            | fuel + 1, some id => match s.theap[id]? with
+              | some t => t :: chain fuel t.proto
+              | none => []
+          (s.newTab d (protoFlatten h (chain 100000 (some (s.T.getD r 0)))), "ok")
+        | none => (s, "bad-op")
+      | _, _ => (s, "bad-op")
+    -- ------------------------------------------------ structs
+    | _, some r, _, _ =>
+      let st := s.str r
+      match op, rest with
+      | "get", [k] | "in", [k] => match kargOf k with
+        | some (.key k) => (s, prVal (structGetChain h s.sheapF k maxProtoDepth (some (s.S.getD r 0))))
+        | some _ => (s, "nil")
+        | none => (s, "bad-op")
+      | "rawget", [k] => match kargOf k with
+        | some (.key k) => (s, prVal (st.rawget h k))
+        | some _ => (s, "nil")
+        | none => (s, "bad-op")
+      | "put", [_, _] => (s, "err")
+      | "next", [k] => match kargOf k with
+        | some .nil => (s, prKey (dictNext h st.data none))
+        | some (.key k) => (s, prKey (dictNext h st.data (some k)))
+        | _ => (s, "bad-op")
+      | "len", [] => (s, toString st.length)
+      | "keys", [] => (s, listStr ((iterKeys s st.data).map (fun k => s!"K{k}")))
+      | "pairs", [] => (s, listStr ((iterKeys s st.data).map (fun k => s!"K{k}={prVal (structGetChain h s.sheapF k maxProtoDepth (some (s.S.getD r 0)))}")))
+      | "values", [] => (s, listStr ((iterKeys s st.data).map (fun k => prVal (structGetChain h s.sheapF k maxProtoDepth (some (s.S.getD r 0))))))
+      | "totable", [d] => match regOf 'T' NT d with
+        | some d => (s.newTab d (st.toTable h st.length), "ok")
+        | none => (s, "bad-op")
+      | "mkstruct", kvs =>
+        if kvs.length % 2 = 1 then (s, "err")
+        else
+          let rec go (b : StructB) : List String → Option StructB
+            | k :: v :: rest => match kargOf k, valOf v with
+              | some (.key k), some v => go (structPut h s.rank true b k v) rest
+              | some _, some _ => go b rest
+              | _, _ => none
+            | _ => some b
+          match go (structBegin (kvs.length / 2)) kvs with
+          | some b => (s.newStr r (structEnd h s.rank b), "ok")
+          | none => (s, "bad-op")
+      | "withproto", [p, d] => match regOf 'S' NS d with
+        | some d =>
+          let pr : Option (Option Nat) := if p == "nil" then some none else (regOf 'S' NS p).map (fun j => some (s.S.getD j 0))
+          match pr with
+          | some pr =>
+            let b := (liveOf st.data).foldl (fun b kv => match kv.key with | some k => structPut h s.rank true b k kv.val | none => b) (structBegin st.length)
+            (s.newStr d { structEnd h s.rank b with proto := pr }, "ok")
+          | none => (s, "err")
+        | none => (s, "bad-op")
+      | _, _ => (s, "bad-op")
+    -- ------------------------------------------------ arrays
+    | _, _, some r, _ =>
+      let a := s.A.getD r default
+      let setA (p : Arr × Outcome Nat) : St × String := ({ s with A := s.A.setIfInBounds r p.1 }, outStr prOV p.2)
+      let vals (ts : List String) : Option (List Nat) := ts.mapM valOf
+      match op, rest with
+      | "anew", [c] => match argOf c with
+        | .int n => ({ s with A := s.A.setIfInBounds r (Arr.new n) }, "ok")
+        | _ => (s, "err")
+      | "anewfilled", c :: vs => match Arr.newFilled (argOf c) ((vs.head?.bind valOf).getD 0) with
+        | some a' => ({ s with A := s.A.setIfInBounds r a' }, "ok")
+        | none => (s, "err")
+      | "apush", vs => match vals vs with
+        | some vs => setA (a.cfunPush vs)
+        | none => (s, "bad-op")
+      | "apop", [] => setA a.pop
+      | "apeek", [] => setA a.peek
+      | "ainsert", pos :: vs => match vals vs with
+        | some vs => setA (a.insert (argOf pos) vs)
+        | none => (s, "bad-op")
+      | "aremove", [pos] => setA (a.remove (argOf pos) none)
+      | "aremove", [pos, n] => setA (a.remove (argOf pos) (some (argOf n)))
+      | "aconcat", ps =>
+        let parts : Option (List Part) := ps.mapM (fun p =>
+          match regOf 'A' NA p, tupleOf p, valOf p with
+          | some j, _, _ => some (if j == r then Part.self else Part.many (s.A.getD j default).items)
+          | _, some l, _ => some (Part.many l)
+          | _, _, some v => some (Part.one v)
+          | _, _, _ => none)
+        match parts with
+        | some parts => setA (a.concat parts)
+        | none => (s, "bad-op")
+      | "afill", [] => setA (a.fill 0)
+      | "afill", [v] => match valOf v with
+        | some v => setA (a.fill v)
+        | none => (s, "bad-op")
+      | "aensure", [c, g] => setA (a.cfunEnsure (argOf c) (argOf g))
+      | "atrim", [] => setA a.trim
+      | "aclear", [] => setA a.clear
+      | "aslice", d :: se => match regOf 'A' NA d with
+        | some d => match sliceOf a.items (optArg se 0) (optArg se 1) with
+          | some a' => ({ s with A := s.A.setIfInBounds d a' }, "ok")
+          | none => (s, "err")
+        | none => (s, "bad-op")
+      | "asetcount", [c] => match argOf c with
+        | .int n => setA (a.setcount n)
+        | _ => (s, "bad-op")
+      | "put", [k, v] => match valOf v with
+        | some v => setA (a.put (argOf k) v)
+        | none => (s, "bad-op")
+      | "puti", [k, v] => match argOf k, valOf v with
+        | .int n, some v => setA (a.putindex n v)
+        | _, _ => (s, "bad-op")
+      | "get", [k] => (s, outStr prOV (a.get (argOf k)))
+      | "in", [k] => (s, outStr prOV (a.in (argOf k)))
+      | "geti", [k] => match argOf k with
+        | .int n => (s, outStr prOV (a.getindex n))
+        | _ => (s, "bad-op")
+      | "next", [k] => (s, outStr prOV (seqNext a.count (argOf k)))
+      | "len", [] => (s, toString a.count)
+      | _, _ => (s, "bad-op")
+    -- ------------------------------------------------ buffers
+    | _, _, _, some r =>
+      let b := s.B.getD r default
+      let setB (p : Buf × Outcome Nat) : St × String := ({ s with B := s.B.setIfInBounds r p.1 }, outStr prByte p.2)
+      let nilOk (o : Outcome Nat) : String := match o with | .ok => "nil" | o => outStr prByte o
+      let bargs (ts : List String) : List BArg := ts.map (fun t =>
+        match regOf 'B' NB t, bytesOfTok t, t.toInt? with
+        | some j, _, _ => if j == r then BArg.self else BArg.bytes ((s.B.getD j default).items.map (·.getD 256))
+        | _, some bs, _ => BArg.bytes bs
+        | _, _, some n => if -2147483648 ≤ n ∧ n ≤ 2147483647 then BArg.int n else BArg.badnum
+        | _, _, none => if t.startsWith "f" then BArg.badnum else BArg.bad)
+      match op, rest with
+      | "bnew", [c] => match argOf c with
+        | .int n => ({ s with B := s.B.setIfInBounds r (Buf.new n) }, "ok")
+        | _ => (s, "err")
+      | "bnewfilled", c :: bs => match Buf.newFilled (argOf c) (optArg bs 0) with
+        | some b' => ({ s with B := s.B.setIfInBounds r b' }, "ok")
+        | none => (s, "err")
+      | "bpush", xs => setB (b.pushImpl (bargs xs))
+      | "bpushbyte", xs => setB (b.pushByteArgs (bargs xs))
+      | "bpushstr", xs => setB (b.pushStringArgs (bargs xs))
+      | "bpushword", xs =>
+        let rec goW (b : Buf) : List String → Buf × Outcome Nat
+          | [] => (b, .ok)
+          | t :: ts => match t.toInt? with
+            | some n =>
+              if 0 ≤ n ∧ n < 4294967296 then
+                let w := n.toNat
+                let r := b.extra 4
+                match r.2 with
+                | .ok => goW { r.1 with cells := writeAt r.1.cells b.count [some (w % 256), some (w / 256 % 256), some (w / 65536 % 256), some (w / 16777216 % 256)], count := b.count + 4 } ts
+                | o => (r.1, o)
+              else (b, .err)
+            | none => (b, .err)
+        setB (goW b xs)
+      | "bpushat", i :: xs => setB (b.pushAt (argOf i) (bargs xs))
+      | "bpopn", [n] => setB (b.popn (argOf n))
+      | "bfill", [] => setB (b.fill none)
+      | "bfill", [x] => setB (b.fill (some (argOf x)))
+      | "btrim", [] => setB b.trim
+      | "bclear", [] => setB b.clear
+      | "bblit", src :: more =>
+        let srcv : Option (Option (List (Option Nat))) := match regOf 'B' NB src, bytesOfTok src with
+          | some j, _ => some (if j == r then none else some (s.B.getD j default).items)
+          | _, some bs => some (some (bs.map some))
+          | _, _ => none
+        match srcv with
+        | some srcv => setB (b.blit srcv (optArg more 0) (optArg more 1) (more.length > 2) (optArg more 2))
+        | none => (s, "err")
+      | "bslice", d :: se => match regOf 'B' NB d with
+        | some d => match bsliceOf b.items (optArg se 0) (optArg se 1) with
+          | some b' => ({ s with B := s.B.setIfInBounds d b' }, "ok")
+          | none => (s, "err")
+        | none => (s, "bad-op")
+      | "bsetcount", [c] => match argOf c with
+        | .int n => setB (b.setcount n)
+        | _ => (s, "bad-op")
+      | "bensure", [c, g] => match argOf c, argOf g with
+        | .int c, .int g => match b.ensure c g with
+          | some b' => setB (b', .ok)
+          | none => (s, "OOM")
+        | _, _ => (s, "bad-op")
+      | "bextra", [n] => match argOf n with
+        | .int n => setB (b.extra n)
+        | _ => (s, "bad-op")
+      | "put", [k, v] => setB (b.put (argOf k) (argOf v))
+      | "puti", [k, v] => match argOf k with
+        | .int n => setB (b.putindex n (argOf v))
+        | _ => (s, "bad-op")
+      | "get", [k] => (s, nilOk (b.get (argOf k)))
+      | "in", [k] => (s, outStr prByte (b.in (argOf k)))
+      | "geti", [k] => match argOf k with
+        | .int n => (s, nilOk (b.getindex n))
+        | _ => (s, "bad-op")
+      | "next", [k] => (s, outStr prOV (seqNext b.count (argOf k)))
+      | "len", [] => (s, toString b.count)
+      | _, _ => (s, "bad-op")
+    | _, _, _, _ =>
+      -- slices whose source is a literal: `aslice [1,2,3] A1 s e`, `bslice sabc B1 s e`
+      match op, tupleOf x, bytesOfTok x, rest with
+      | "aslice", some items, _, d :: se => match regOf 'A' NA d with
+        | some d => match sliceOf items (optArg se 0) (optArg se 1) with
+          | some a' => ({ s with A := s.A.setIfInBounds d a' }, "ok")
+          | none => (s, "err")
+        | none => (s, "bad-op")
+      | "bslice", _, some bs, d :: se => match regOf 'B' NB d with
+        | some d => match bsliceOf (bs.map some) (optArg se 0) (optArg se 1) with
+          | some b' => ({ s with B := s.B.setIfInBounds d b' }, "ok")
+          | none => (s, "err")
+        | none => (s, "bad-op")
+      | _, _, _, _ => (s, "bad-op")
+  | _ => (s, "bad-op")
+
+def step (s : St) (toks : List String) : St × String :=
+  match toks with
+  | ["key", i, hsh, rk] =>
+    match i.toNat?, hsh.toNat?, rk.toNat? with
+    | some i, some hv, some rk =>
+      let grow (a : Array Nat) := if a.size ≤ i then a ++ Array.replicate (i + 1 - a.size) 0 else a
+      ({ s with hashes := (grow s.hashes).setIfInBounds i hv, ranks := (grow s.ranks).setIfInBounds i rk }, s!"key {i} {hv} {rk}")
+    | _, _, _ => (s, "bad-op")
+  | ["keys-end", n] => (s.reset, s!"keys-end {n}")
+  | ["full"] => ({ s with full := true }, "full")
+  | _ =>
+    let (s', r) := stepOp s toks
+    if r == "bad-op" then (s', r) else (s', r ++ s'.state)
+
+end C04
+
+def main : IO Unit := runLoop ({} : C04.St) C04.step
